@@ -126,15 +126,33 @@ fn check_built(built: Option<BackoffStrategy>, cfg: &Cfg, max_iter: u32) -> Resu
             i += 1;
         }
         hints.push(it.size_hint());
+        // a spent budget stays spent: consumers that hold the iterator by `&mut` (a retry loop that asks again, `zip`,
+        // `by_ref()`) poll it after its first `None`
+        let mut after_end = 0usize;
+        if cfg2.attempts <= max_iter {
+            for _ in 0..3 {
+                if it.next().is_some() {
+                    after_end += 1;
+                }
+            }
+            let mut shared = strategy.clone().into_iter();
+            let k = (cfg2.attempts / 2) as usize;
+            let first = shared.by_ref().take(k).count();
+            let rest = shared.by_ref().count();
+            let again = shared.by_ref().count();
+            if first + rest != cfg2.attempts as usize || again != 0 {
+                after_end += 1000 + again;
+            }
+        }
         // … and through adaptors, when the hints allow it without exhausting memory
         let collected = if hints.iter().all(|h| h.0 <= 1_000_000) && cfg2.attempts <= max_iter {
             Some((strategy.clone().into_iter().collect::<Vec<_>>().len(), strategy.clone().into_iter().count(), strategy.into_iter().last().map(|a| a.attempt_num)))
         } else {
             None
         };
-        (out, hints, collected)
+        (out, hints, collected, after_end)
     }));
-    let (out, hints, collected) = match r {
+    let (out, hints, collected, after_end) = match r {
         Ok(o) => o,
         Err(p) => {
             let msg = if let Some(s) = p.downcast_ref::<&str>() {
@@ -155,6 +173,16 @@ fn check_built(built: Option<BackoffStrategy>, cfg: &Cfg, max_iter: u32) -> Resu
     let expect_len = cfg.attempts.min(max_iter + 1) as usize;
     if out.len() != expect_len {
         return Err(("length".into(), format!("schedule yielded {} attempts, expected {}", out.len(), expect_len)));
+    }
+    if after_end != 0 {
+        return Err((
+            "length/resumes-after-exhaustion".into(),
+            if after_end >= 1000 {
+                format!("a budget of {} attempts drawn in two parts through by_ref() and then asked again yielded {} further attempt(s): the schedule is not finite for a consumer that polls it after its end", cfg.attempts, after_end - 1000)
+            } else {
+                format!("after its first None the schedule of {} attempts yielded {} more attempt(s) in 3 further polls", cfg.attempts, after_end)
+            },
+        ));
     }
     if cfg.attempts <= max_iter {
         for (k, (lo, hi)) in hints.iter().enumerate() {
